@@ -178,13 +178,34 @@ func parseCIDR(s string) (Range, error) {
 	if err != nil {
 		return Range{}, err
 	}
+	r, err := FromIPNet(*n)
+	r.Src = s
+	return r, err
+}
+
+// FromIPNet projects a net.IPNet to (family, network number, prefix length) the
+// way IPNet.Contains reads it (net.networkNumberAndMask): an IPv4 or
+// IPv4-mapped network number is taken as 4 bytes, and a 16-byte mask over it
+// loses its first 12 bytes.  Non-canonical masks are refused.
+func FromIPNet(n net.IPNet) (Range, error) {
 	ones, bits := n.Mask.Size()
-	if bits == 0 || len(n.IP) != len(n.Mask) || len(n.IP)*8 != bits {
-		return Range{}, fmt.Errorf("%q: non-canonical mask", s)
+	if bits == 0 || (len(n.IP) != net.IPv4len && len(n.IP) != net.IPv6len) {
+		return Range{}, fmt.Errorf("%v: non-canonical mask or address length", n)
 	}
+	ip := n.IP
 	fam := 6
-	if len(n.IP) == net.IPv4len {
-		fam = 4
+	if v4 := ip.To4(); v4 != nil {
+		ip, fam = v4, 4
 	}
-	return Range{Src: s, Fam: fam, Addr: new(big.Int).SetBytes(n.IP), Len: ones}, nil
+	switch {
+	case bits == 32 && fam == 6:
+		return Range{}, fmt.Errorf("%v: 4-byte mask on a 16-byte address", n)
+	case bits == 128 && fam == 4:
+		ones = max(0, ones-96)
+	}
+	masked := ip.Mask(net.CIDRMask(ones, len(ip)*8))
+	if masked == nil {
+		return Range{}, fmt.Errorf("%v: cannot mask", n)
+	}
+	return Range{Src: n.String(), Fam: fam, Addr: new(big.Int).SetBytes(masked), Len: ones}, nil
 }
